@@ -25,7 +25,7 @@ ASSUMPTIONS = [
 
 APIS = ("function", "method", "method_on_region_with_start", "function_on_region_with_start", "raw_file", "raw_file_lazy",
         "wav_file", "wav_file_lazy", "used_buffer_source", "used_reader", "stdin_pipe", "recorder_second_pass",
-        "region_with_conflicting_audio_kwargs", "split_and_plot")
+        "region_with_conflicting_audio_kwargs", "split_and_plot", "own_validator_object")
 
 
 def run_case(ctx, case, api=None):
@@ -97,6 +97,31 @@ def run_case(ctx, case, api=None):
             finally:
                 _sys.stdin = old_stdin
                 ps.close()
+        elif api == "own_validator_object":
+            # the caller's own validator: an object that happens to be falsy (it keeps a history of its decisions, empty at the
+            # start), a plain function, or a DataValidator subclass - it, not the default energy validator, decides every window
+            from auditok.util import AudioEnergyValidator, DataValidator
+
+            inner = AudioEnergyValidator(case["thr"], case["width"], case["channels"], use_channel=case["uc"])
+
+            class History(DataValidator):
+                def __init__(self):
+                    self.seen = []
+
+                def __len__(self):
+                    return len(self.seen)
+
+                def is_valid(self, window):
+                    r = bool(inner.is_valid(window))
+                    if (case["pcm_seed"] >> 27) & 1:
+                        self.seen.append(r)  # truthy from the first decision on; otherwise empty - falsy - for ever
+                    return r
+
+            which = (case["pcm_seed"] >> 24) % 3
+            val = History() if which < 2 else (lambda window: bool(inner.is_valid(window)))
+            kw2 = {k: v for k, v in kw.items() if k not in ("energy_threshold", "eth", "use_channel", "uc")}
+            kw2["validator" if which != 1 else "val"] = val
+            regions = list(auditok.split(src_data, **kw2, **AC.audio_kwargs(case)))
         elif api == "recorder_second_pass":
             # history: Recorder -> split -> rewind -> split again; the second pass reports the same audio parameters and times
             from auditok import Recorder
@@ -275,6 +300,6 @@ def replay(ctx, case):
 def inconclusive(merged, tier):
     c = merged["counters"]
     return [f"monitor never observed {k}" for k in
-            ("regions_observed", "regions_expected", "api_function", "api_method", "api_method_on_region_with_start", "api_function_on_region_with_start", "huge_window_cases", "cases_with_max_read_inside_a_window", "api_raw_file_lazy", "api_wav_file_lazy", "api_used_buffer_source", "api_used_reader", "api_stdin_pipe", "api_recorder_second_pass", "api_region_with_conflicting_audio_kwargs", "api_split_and_plot", "cases_threshold_zero", "nested_splits", "width_1", "width_2", "width_4",
+            ("regions_observed", "regions_expected", "api_function", "api_method", "api_method_on_region_with_start", "api_function_on_region_with_start", "huge_window_cases", "cases_with_max_read_inside_a_window", "api_raw_file_lazy", "api_wav_file_lazy", "api_used_buffer_source", "api_used_reader", "api_stdin_pipe", "api_recorder_second_pass", "api_region_with_conflicting_audio_kwargs", "api_split_and_plot", "api_own_validator_object", "cases_threshold_zero", "nested_splits", "width_1", "width_2", "width_4",
              "channels_1", "channels_2", "channels_3", "cases_with_partial_last_window", "regions_ending_in_partial_window",
              "cases_nonintegral_window", "repo_tests_split_regions_checked") if c.get(k, 0) == 0]
